@@ -1294,6 +1294,7 @@ func init() {
 func runR118(c *Ctx) {
 	p := c.P
 	nMake := 0
+	r118CallerSizes(c)
 	defer func() {
 		// the rule's domain is every make in scope; how many of them compute a size by subtraction varies
 		if nMake == 0 {
